@@ -13,6 +13,8 @@ package main
 import (
 	"bufio"
 	"fmt"
+	"io"
+	"log"
 	"os"
 	"path/filepath"
 	"sort"
@@ -83,6 +85,7 @@ func (c *ctx) op(line string) string {
 func (c *ctx) tag(k string) { c.hist[k]++ }
 
 func main() {
+	log.SetOutput(io.Discard) // the code under test logs per request; answers go to files
 	if len(os.Args) < 5 || (os.Args[1] != "gen" && os.Args[1] != "exec") {
 		names := []string{}
 		for n := range streams {
